@@ -3844,6 +3844,7 @@ func (p *Parser) parseAlterChangeStream(pos token.Pos) *ast.AlterChangeStream {
 			}
 			return cs
 		}
+		p.panicfAtToken(&p.Token, "expected FOR or OPTIONS, but: %s", p.Token.Kind)
 	} else if p.Token.IsKeywordLike("DROP") {
 		droppos := p.Token.Pos
 		p.nextToken()
@@ -4355,6 +4356,10 @@ func (p *Parser) parseAlterSequence(pos token.Pos) *ast.AlterSequence {
 	var restartCounterWith *ast.RestartCounterWith
 	if p.Token.IsKeywordLike("RESTART") {
 		restartCounterWith = p.parseRestartCounterWith()
+	}
+
+	if options == nil && skipRange == nil && noSkipRange == nil && restartCounterWith == nil {
+		p.panicfAtToken(&p.Token, "expected SET, SKIP, NO or RESTART, but: %s", p.Token.Kind)
 	}
 
 	return &ast.AlterSequence{
